@@ -257,6 +257,11 @@ def _parse_args(args: list[str] | None = None) -> tuple[Options, set[str], bool]
     # Re-parse with sentinel defaults to detect which flags were actually supplied.
     # append actions use None as sentinel (argparse creates a list when the flag is used).
     sentinel_parser = argparse.ArgumentParser(add_help=False)
+    # The other short options must be known here too, or a combination like `-is` is not
+    # recognized (and `-si` is rejected) by this second parser.
+    sentinel_parser.add_argument("-o", "--output", type=str, default=None)
+    sentinel_parser.add_argument("-p", "--plaintext", action="store_true")
+    sentinel_parser.add_argument("-i", "--inplace", action="store_true")
     sentinel_parser.add_argument("-w", "--width", type=int, default=_SENTINEL)
     sentinel_parser.add_argument("-s", "--semantic", action="store_true", default=_SENTINEL)
     sentinel_parser.add_argument("-c", "--cleanups", action="store_true", default=_SENTINEL)
